@@ -21,8 +21,8 @@ type Key = [keySize]byte
 // CreateAESKey creates a 32-bit key out of a password string
 func createAESKey(key string) [keySize]byte {
 	aesKey := [32]byte{}
-	copy(aesKey[:], key)
-	copy(aesKey[len(key):], bytes.Repeat([]byte{RSCP_CRYPT_KEY_PADDING}, keySize-len(key)))
+	n := copy(aesKey[:], key)
+	copy(aesKey[n:], bytes.Repeat([]byte{RSCP_CRYPT_KEY_PADDING}, keySize-n))
 	return aesKey
 }
 
